@@ -230,12 +230,19 @@ func cmdCheck(args []string) {
 		exit = 1
 	}
 	if len(rejected) > 0 {
-		for _, r := range rejected {
+		// On the unchanged tree every function under contract is inside the modelled subset (tools/runall.sh checks
+		// it).  A function that can no longer be translated is therefore a function whose obligations were all
+		// discharged before the change and cannot even be generated now: reported as a violation without a failing
+		// input, with the reason; the UNDECIDED line is kept for the reader.
+		for k, r := range rejected {
 			fmt.Printf("UNDECIDED property=%s function outside the modelled subset: %s\n", *prop, r)
+			os.MkdirAll(replayDir, 0755)
+			path := filepath.Join(replayDir, fmt.Sprintf("outside-the-modelled-subset_%d.txt", k))
+			os.WriteFile(path, []byte("property: "+*prop+"\nfailed obligation: every obligation of the contract of this function\n"+
+				"reason: the function can no longer be translated (it was inside the modelled subset, and all its obligations were discharged, on the unchanged tree): "+r+"\n\nno-failing-input-found\n"), 0644)
+			fmt.Printf("VIOLATION property=%s replay=%s no-failing-input-found\n", *prop, path)
 		}
-		if exit == 0 {
-			exit = 2
-		}
+		exit = 1
 	}
 	if engineErr && exit == 0 {
 		exit = 2
